@@ -1,6 +1,8 @@
 /-
 C08 — aggregation sums exactly the cells it merges and loses nothing.
-Only property theorems live here (helper lemmas: `Lemmas/Summarize.lean`, `Lemmas/Aggregate.lean`).
+Only property theorems live here (helper lemmas: `Lemmas/Summarize.lean`, `Lemmas/Aggregate.lean`,
+`Lemmas/AggregateDates.lean`, `Lemmas/AggregateAnchor.lean` — the latter also holds the closed instance used by the
+non-vacuity examples).
 The values of an aggregated cell come from the C09 model (`summarizeCellValues`), whose sum clause is
 `Properties/C09`'s; the rule table is the regenerated one.
 -/
@@ -8,6 +10,7 @@ import Bermuda.Model.Aggregate
 import Bermuda.Spec.C08
 import Bermuda.Lemmas.Aggregate
 import Bermuda.Lemmas.AggregateDates
+import Bermuda.Lemmas.AggregateAnchor
 namespace Bermuda.Properties.C08
 open Bermuda Generated.Summarize
 
@@ -21,29 +24,115 @@ theorem window_consecutive (q : Int) (u : ResUnit) (init : Date) (k : Nat) :
 theorem window_step (q : Int) (u : ResUnit) (init : Date) (k : Nat) :
     (windowAt q u init k).2 = resolutionDelta (iterD q u k init) q u := iterD_succ' q u k init
 
+/-- **`anchor_spec` (month units).** The anchor the code reaches by walking up and down from the REQUESTED origin
+(a valid month end) is itself a point of the origin's grid: the last day of month `monthToId origin + j·q` for an
+integer `j`; it lies strictly before the bound (the earliest period start / first evaluation date) and the next
+grid point does not — the first window `[anchor + 1 day, anchor + q months]` contains the bound. -/
+theorem anchor_spec_month {q : Int} {origin bound a : Date} (hv : origin.valid = true)
+    (he : origin.isMonthEnd = true) (h : anchorBefore q .month origin bound = some a) :
+    ∃ j : Int, a = monthEndOf (monthToId origin + j * q) ∧ a < bound ∧
+      ¬ (monthEndOf (monthToId origin + (j + 1) * q) < bound) :=
+  anchorBefore_month_agg hv he h
+
+/-- **`anchor_spec` (day units)**, dates inside `date.min … date.max` with one step of room: the anchor is `j·q`
+days from the requested origin, strictly before the bound, and `q` days later is not. -/
+theorem anchor_spec_day {q : Int} {origin bound a : Date} (hq : 1 ≤ q) (hvo : origin.valid = true)
+    (hvb : bound.valid = true) (ho1 : 1 ≤ origin.ordinal) (ho2 : origin.ordinal + q ≤ 3652059)
+    (hb1 : q < bound.ordinal) (hb2 : bound.ordinal + q ≤ 3652059)
+    (h : anchorBefore q .day origin bound = some a) :
+    ∃ j : Int, a.valid = true ∧ a.ordinal = origin.ordinal + j * q ∧ a < bound ∧ ¬ (a.addDays q < bound) :=
+  anchorBefore_day_agg hq hvo hvb ho1 ho2 hb1 hb2 h
+
+/-- in every regime the anchor lies strictly before the bound -/
+theorem anchor_before {q : Int} {u : ResUnit} {origin bound a : Date}
+    (h : anchorBefore q u origin bound = some a) : a < bound := by
+  unfold anchorBefore at h
+  split at h
+  · cases h
+  · have := walkDown_spec h
+    rw [Date.le_iff_agg] at this
+    rw [Date.lt_iff_agg]; omega
+
 /-- **`window_spec`.** A successful `_aggregate_period` re-labels every source cell (in `(ps, pe, ev)` order)
-with one of the consecutive windows `windowAt k = [grid k + 1 day, grid (k+1)]`, `grid k = anchor + k·res`,
-such that the cell's period starts and ends no later than the window's end; evaluation date, values and metadata
-are untouched. (`windowAt` is by construction a chain of adjacent intervals, `window_consecutive`; that they are
-disjoint is `window_disjoint_month` / `window_disjoint_day` for a positive quantity.) -/
+with one of the consecutive windows `windowAt k = [grid k + 1 day, grid (k+1)]`, `grid k = anchor + k·res`, where
+the anchor is `anchorBefore … period_origin` of the EARLIEST period start `c0.ps` (so by `anchor_spec_month` /
+`anchor_spec_day` a point `period_origin + j·res` of the requested grid, see `window_origin_month`), such that the
+cell's period starts and ends no later than the window's end and — for valid period starts — starts no earlier than
+the window's start: the source period lies INSIDE the window; evaluation date, values and metadata are untouched.
+(`windowAt` is by construction a chain of adjacent intervals, `window_consecutive`; that they are disjoint is
+`window_disjoint_month` / `window_disjoint_day` for a positive quantity.) -/
 theorem window_spec {tr : Transc} {t out : List Cell} {q : Int} {s : String} {origin : Date}
     {prem : Bool} (h : aggregatePeriod tr t (some (q, s)) origin prem = .ok out) :
     ∃ q' u init rel, standardizeResolution q s = .ok (q', u) ∧
+      (∃ c0 ∈ t, (∀ c ∈ t, ¬ c.ps < c0.ps) ∧ anchorBefore q' u origin c0.ps = some init) ∧
       rel.length = t.length ∧
-      ∀ p ∈ (t.mergeSort fun a b => coordCmp a b != .gt).zip rel, Relabelled q' u init p.1 p.2 := by
-  obtain ⟨q', u, init, rel, _, hst, hrel, _, _⟩ := aggregatePeriod_decompose h
+      ∀ p ∈ (t.mergeSort fun a b => coordCmp a b != .gt).zip rel, Relabelled q' u init p.1 p.2 ∧
+        ((∀ c ∈ t, c.ps.valid = true) → ¬ (p.1.ps < p.2.ps)) := by
+  obtain ⟨q', u, init, rel, _, c0, hst, hc0, hmin, hanchor, hrel, _, _⟩ := aggregatePeriod_decompose_anchor h
   obtain ⟨hlen, hall⟩ := assignWindows_spec hrel
-  exact ⟨q', u, init, rel, hst, by rw [hlen, List.length_mergeSort], hall⟩
+  have hperm : (t.mergeSort fun a b => coordCmp a b != .gt).Perm t := List.mergeSort_perm _ _
+  refine ⟨q', u, init, rel, hst, ⟨c0, hc0, hmin, hanchor⟩, by rw [hlen, List.length_mergeSort], ?_⟩
+  intro p hp
+  refine ⟨hall p hp, fun hv => ?_⟩
+  exact assignWindows_contains (sorted_by_ps t) (fun c hc => hv c (hperm.mem_iff.mp hc))
+    (fun c hc => Date.lt_of_lt_of_not_lt_agg (anchor_before hanchor) (hmin c (hperm.mem_iff.mp hc))) hrel p hp
+
+/-- **`window_origin_month`: the windows start the day after `period_origin + k·res`.** Month units (month,
+quarter, year spellings) with a valid month-end `period_origin`: there is an integer `j` such that every source
+cell is re-labelled with the window `[last day of month (M₀ + (j+k)·q) + 1 day, last day of month
+(M₀ + (j+k+1)·q)]`, `M₀ = monthToId period_origin`, `k ∈ ℕ` — consecutive windows of the requested length counted
+from the requested origin; window `j` (k = 0) is the one containing the earliest period start. -/
+theorem window_origin_month {tr : Transc} {t out : List Cell} {q q' : Int} {s : String} {origin : Date}
+    {prem : Bool} (h : aggregatePeriod tr t (some (q, s)) origin prem = .ok out)
+    (hst : standardizeResolution q s = .ok (q', .month)) (hv : origin.valid = true)
+    (he : origin.isMonthEnd = true) :
+    ∃ (j : Int) (rel : List Cell), rel.length = t.length ∧
+      (∃ c0 ∈ t, (∀ c ∈ t, ¬ c.ps < c0.ps) ∧ monthEndOf (monthToId origin + j * q') < c0.ps ∧
+        ¬ (monthEndOf (monthToId origin + (j + 1) * q') < c0.ps)) ∧
+      ∀ p ∈ (t.mergeSort fun a b => coordCmp a b != .gt).zip rel, ∃ k : Nat,
+        p.2.ps = (monthEndOf (monthToId origin + (j + k) * q')).succ ∧
+        p.2.pe = monthEndOf (monthToId origin + (j + k + 1) * q') ∧
+        p.2.ev = p.1.ev ∧ p.2.values = p.1.values ∧ p.2.md = p.1.md ∧ ¬ (p.2.pe < p.1.pe) := by
+  obtain ⟨q2, u, init, rel, hst', ⟨c0, hc0, hmin, hanchor⟩, hlen, hall⟩ := window_spec h
+  rw [hst] at hst'
+  obtain ⟨rfl, rfl⟩ : q' = q2 ∧ ResUnit.month = u := by
+    injection hst' with h1; injection h1 with h2 h3; exact ⟨h2, h3⟩
+  obtain ⟨j, hj, hlt, hnext⟩ := anchor_spec_month hv he hanchor
+  have hvi : init.valid = true := by rw [hj]; exact monthEndOf_valid _
+  have hei : init.isMonthEnd = true := by rw [hj]; exact monthEndOf_isMonthEnd _
+  have hid : monthToId init = monthToId origin + j * q' := by rw [hj, monthToId_monthEndOf]
+  refine ⟨j, rel, hlen, ⟨c0, hc0, hmin, by rw [← hj]; exact hlt, hnext⟩, ?_⟩
+  intro p hp
+  obtain ⟨⟨k, hk, _, _, hev, hvals, hmd, _, hpe⟩, _⟩ := hall p hp
+  obtain ⟨h2, h1⟩ := window_month_shape_agg (q := q') hvi hei k
+  refine ⟨k, ?_, ?_, hev, hvals, hmd, hpe⟩
+  · have : p.2.ps = (windowAt q' .month init k).1 := congrArg Prod.fst hk
+    rw [this, h1, hid]; congr 2; ring
+  · have : p.2.pe = (windowAt q' .month init k).2 := congrArg Prod.snd hk
+    rw [this, h2, hid]; congr 1; ring
+
+/-- **bridge `spec_windowsOk_month`.** The closed-form predicate `Spec.C08.windowsOk` — every output period is
+`[period_origin + n·res + 1 day, period_origin + (n+1)·res]` by month-index arithmetic from the REQUESTED origin,
+every output cell is a CumulativeCell — which the driver evaluates on the implementation's output, holds on the
+model's output (month units, valid month-end origin; any quantity). -/
+theorem spec_windowsOk_month {tr : Transc} {t out : List Cell} {q q' : Int} {s : String} {origin : Date}
+    {prem : Bool} (h : aggregatePeriod tr t (some (q, s)) origin prem = .ok out)
+    (hst : standardizeResolution q s = .ok (q', .month)) (hv : origin.valid = true)
+    (he : origin.isMonthEnd = true) : Spec.C08.windowsOk q' .month origin out = true :=
+  windowsOk_month_agg h hst hv he
 
 /-! ### 2. cells and conservation -/
 
 /-- **`aggPeriod_cell_spec`.** Exactly one output cell per (window, evaluation date) that has a re-labelled
 source cell — the output keys are a permutation of the distinct keys of the re-labelled cells —, it is a
-CumulativeCell carrying the slice's metadata, and every field whose rule is the sum of itself equals, sample by
+CumulativeCell carrying the slice's metadata (the windows are those of `window_spec`: the anchor is
+`anchorBefore … period_origin` of the earliest period start), and every field whose rule is the sum of itself equals, sample by
 sample, the sum of that field over ALL re-labelled source cells with that window and evaluation date. -/
 theorem aggPeriod_cell_spec {tr : Transc} {t out : List Cell} {q : Int} {s : String} {origin : Date}
     {prem : Bool} (h : aggregatePeriod tr t (some (q, s)) origin prem = .ok out) :
     ∃ q' u init rel,
+      (standardizeResolution q s = .ok (q', u) ∧
+        ∃ c0 ∈ t, (∀ c ∈ t, ¬ c.ps < c0.ps) ∧ anchorBefore q' u origin c0.ps = some init) ∧
       assignWindows q' u init (t.mergeSort fun a b => coordCmp a b != .gt) = .ok rel ∧
       (out.map key3).Perm (smDedup (rel.map key3)) ∧
       ∀ o ∈ out, o.kind = .cumulative ∧ (∃ rc ∈ rel, key3 rc = key3 o ∧ rc.md = o.md) ∧
@@ -52,8 +141,9 @@ theorem aggPeriod_cell_spec {tr : Transc} {t out : List Cell} {q : Int} {s : Str
           (∀ rc ∈ rel, key3 rc = key3 o → (rc.getV f).inRange i = true) →
           (o.getV f).at i =
             ((rel.filter fun rc => key3 rc == key3 o).map fun rc => (rc.getV f).at i).sum := by
-  obtain ⟨q', u, init, rel, newCells, _, hrel, hnew, hperm⟩ := aggregatePeriod_decompose h
-  refine ⟨q', u, init, rel, hrel, ?_, ?_⟩
+  obtain ⟨q', u, init, rel, newCells, c0, hst, hc0, hmin, hanchor, hrel, hnew, hperm⟩ :=
+    aggregatePeriod_decompose_anchor h
+  refine ⟨q', u, init, rel, ⟨hst, c0, hc0, hmin, hanchor⟩, hrel, ?_, ?_⟩
   · have hk : newCells.map key3 = (groupsOf key3 rel).map (·.1) :=
       smMapE_map _ _ hnew (fun g hg o ho => (aggCell_key hg ho).1)
     have := hperm.map key3
@@ -72,6 +162,94 @@ theorem aggPeriod_cell_spec {tr : Transc} {t out : List Cell} {q : Int} {s : Str
       exact hin c (List.mem_filter.mp hc').1 (by simpa using (List.mem_filter.mp hc').2))
     have hget : o.getV f = (Dict.get? vals f).getD .none := by rw [ho']; rfl
     rw [hget, this.1, hg2]
+
+/-- source cell `c` lies INSIDE the period of output cell `o` and has its evaluation date -/
+def insideOf (o c : Cell) : Bool := !(c.ps < o.ps) && !(o.pe < c.pe) && c.ev == o.ev
+
+/-- **`aggPeriod_sums_inside_month`: the sum clause over "the source cells whose period lies inside the aggregated
+period" — both directions.** Month units, valid month-end `period_origin`, positive quantity, source cells with
+valid period starts and `period_start ≤ period_end`: every output cell's value of a summed field equals, sample by
+sample, the sum of that field over EXACTLY the source cells `c` of the slice with
+`o.period_start ≤ c.period_start`, `c.period_end ≤ o.period_end` and `c.evaluation_date = o.evaluation_date` — a
+source cell inside the window is never labelled with another window (the windows are disjoint,
+`window_disjoint_month`), and a cell labelled with the window lies inside it (`window_spec`). -/
+theorem aggPeriod_sums_inside_month {tr : Transc} {t out : List Cell} {q q' : Int} {s : String}
+    {origin : Date} {prem : Bool} (h : aggregatePeriod tr t (some (q, s)) origin prem = .ok out)
+    (hst : standardizeResolution q s = .ok (q', .month)) (hq : 1 ≤ q') (hv : origin.valid = true)
+    (he : origin.isMonthEnd = true) (hcells : ∀ c ∈ t, c.ps.valid = true ∧ ¬ (c.pe < c.ps))
+    {o : Cell} (ho : o ∈ out) {f : String} {i : Nat}
+    (hr : ruleOf [] (lowerKey f) = some ⟨.sum, [f]⟩) (hc : prem = true ∨ f ∉ nonLossMetrics)
+    (hin : ∀ c ∈ t, (c.getV f).inRange i = true) :
+    (o.getV f).at i = ((t.filter (insideOf o)).map fun c => (c.getV f).at i).sum := by
+  obtain ⟨q2, u, init, rel, ⟨hst', c0, hc0, hmin, hanchor⟩, hrel, _, hcell⟩ := aggPeriod_cell_spec h
+  rw [hst] at hst'
+  obtain ⟨rfl, rfl⟩ : q' = q2 ∧ ResUnit.month = u := by
+    injection hst' with h1; injection h1 with h2 h3; exact ⟨h2, h3⟩
+  obtain ⟨j, hj, _, _⟩ := anchor_spec_month hv he hanchor
+  have hvi : init.valid = true := by rw [hj]; exact monthEndOf_valid _
+  have hei : init.isMonthEnd = true := by rw [hj]; exact monthEndOf_isMonthEnd _
+  have hperm : (t.mergeSort fun a b => coordCmp a b != .gt).Perm t := List.mergeSort_perm _ _
+  obtain ⟨hlen, hall⟩ := assignWindows_spec hrel
+  have hcont := assignWindows_contains (sorted_by_ps t)
+    (fun c hc' => (hcells c (hperm.mem_iff.mp hc')).1)
+    (fun c hc' => Date.lt_of_lt_of_not_lt_agg (anchor_before hanchor) (hmin c (hperm.mem_iff.mp hc'))) hrel
+  obtain ⟨_, ⟨rc0, hrc0, hkey0, _⟩, hsum⟩ := hcell o ho
+  -- the window of `o`
+  obtain ⟨c00, hc00⟩ := mem_zip_of_mem_right hlen hrc0
+  obtain ⟨k0, hk0, _⟩ := hall (c00, rc0) hc00
+  have hops : o.ps = (windowAt q' .month init k0).1 := by
+    rw [← congrArg Prod.fst hk0]; exact (congrArg (fun k : Date × Date × Date => k.1) hkey0).symm
+  have hope : o.pe = (windowAt q' .month init k0).2 := by
+    rw [← congrArg Prod.snd hk0]; exact (congrArg (fun k : Date × Date × Date => k.2.1) hkey0).symm
+  -- labelled with the window of `o`  ⇔  inside it
+  have hiff : ∀ p ∈ (t.mergeSort fun a b => coordCmp a b != .gt).zip rel,
+      (key3 p.2 == key3 o) = insideOf o p.1 := by
+    intro p hp
+    obtain ⟨k, hk, _, _, hev, _, _, hnps, hnpe⟩ := hall p hp
+    have hcps := hcont p hp
+    have hrps : p.2.ps = (windowAt q' .month init k).1 := congrArg Prod.fst hk
+    have hrpe : p.2.pe = (windowAt q' .month init k).2 := congrArg Prod.snd hk
+    have hdates := (hcells p.1 (hperm.mem_iff.mp (List.of_mem_zip hp).1)).2
+    rw [Bool.eq_iff_iff]
+    simp only [insideOf, beq_iff_eq, Bool.and_eq_true, Bool.not_eq_true', decide_eq_false_iff_not]
+    constructor
+    · intro hkey
+      have e1 : p.2.ps = o.ps := congrArg (fun k : Date × Date × Date => k.1) hkey
+      have e2 : p.2.pe = o.pe := congrArg (fun k : Date × Date × Date => k.2.1) hkey
+      have e3 : p.2.ev = o.ev := congrArg (fun k : Date × Date × Date => k.2.2) hkey
+      exact ⟨⟨by rw [← e1]; exact hcps, by rw [← e2]; exact hnpe⟩, by rw [← hev, e3]⟩
+    · rintro ⟨⟨h1, h2⟩, h3⟩
+      have hkk : k = k0 := by
+        rcases Nat.lt_trichotomy k k0 with hlt | heq | hgt
+        · exfalso
+          have hd := window_disjoint_month_agg (q := q') hq hvi hei hlt
+          rw [← hrpe, ← hops] at hd
+          exact hnps (Date.lt_of_lt_of_not_lt_agg hd h1)
+        · exact heq
+        · exfalso
+          have hd := window_disjoint_month_agg (q := q') hq hvi hei hgt
+          rw [← hope, ← hrps] at hd
+          have h4 : o.pe < p.1.ps := Date.lt_of_lt_of_not_lt_agg hd hcps
+          exact h2 (Date.lt_of_lt_of_not_lt_agg h4 hdates)
+      subst hkk
+      simp only [key3]
+      rw [hrps, hrpe, ← hops, ← hope, hev, h3]
+  have hrange : ∀ rc ∈ rel, key3 rc = key3 o → (rc.getV f).inRange i = true := by
+    intro rc hrc _
+    obtain ⟨c, hc'⟩ := mem_zip_of_mem_right hlen hrc
+    obtain ⟨_, _, _, _, _, hvals, _⟩ := hall (c, rc) hc'
+    have hvals' : rc.values = c.values := hvals
+    have : rc.getV f = c.getV f := by simp [Cell.getV, hvals']
+    rw [this]; exact hin c (hperm.mem_iff.mp (List.of_mem_zip hc').1)
+  rw [hsum f i hr hc hrange, sum_filter_eq_indicator, sum_filter_eq_indicator,
+    ← sum_perm (hperm.map fun c => if insideOf o c then (c.getV f).at i else 0)]
+  symm
+  congr 1
+  apply map_eq_of_zip _ _ _ _ hlen
+  intro p hp
+  obtain ⟨_, _, _, _, _, hvals, _⟩ := hall p hp
+  have : p.2.getV f = p.1.getV f := by simp [Cell.getV, hvals]
+  rw [← hiff p hp, this]
 
 /-- **`aggPeriod_conserves`.** Per slice (`_aggregate_period` runs on one slice), evaluation date and summed
 field, the total is conserved sample by sample: nothing is dropped, duplicated or apportioned. -/
@@ -185,6 +363,74 @@ theorem aggPeriod_error_iff_straddle {q : Int} {u : ResUnit} {init : Date} (t : 
       rw [hpe] at hno
       exact hno hcross
 
+/-- **bridge `spec_expectStraddle_month`.** The closed-form straddle test `Spec.C08.expectStraddle` (some source
+period crosses the end — computed by month-index division from `period_origin` — of the window containing its
+start), which the harness compares with the implementation raising `TriangleError`, agrees with the model in
+month units from a valid month-end origin with a positive quantity and valid period starts: it is FALSE whenever
+`_aggregate_period` succeeds and TRUE whenever the window walk (from the anchor of the earliest period start) ends
+in `TriangleError`. (The remaining direction "true ⇒ the walk raises" is `aggPeriod_error_iff_straddle` with its
+hypothesis `honly`.) -/
+theorem spec_expectStraddle_month {t : List Cell} {q q' : Int} {s : String} {origin : Date}
+    (hst : standardizeResolution q s = .ok (q', .month)) (hq : 1 ≤ q') (hv : origin.valid = true)
+    (he : origin.isMonthEnd = true) (hcells : ∀ c ∈ t, c.ps.valid = true) :
+    (∀ tr prem out, aggregatePeriod tr t (some (q, s)) origin prem = .ok out →
+      Spec.C08.expectStraddle q' .month origin t = false) ∧
+    (∀ (c0 : Cell) (init : Date), (∀ c ∈ t, ¬ c.ps < c0.ps) → anchorBefore q' .month origin c0.ps = some init →
+      assignWindows q' .month init (t.mergeSort fun a b => coordCmp a b != .gt) = .error .triangleError →
+      Spec.C08.expectStraddle q' .month origin t = true) :=
+  ⟨fun _ _ _ h => expectStraddle_false_of_ok h hst hq hv he hcells,
+   fun _ _ hmin hanchor herr => expectStraddle_true_of_error hq hv he hcells hmin hanchor herr⟩
+
+/-- **`straddle_iff_triangleError_month`: `honly` discharged, in closed form.** Month units, valid month-end
+`period_origin`, positive quantity, source cells satisfying the `Cell` constructor's date rules with valid period
+starts: the window walk from the anchor of the earliest period start ends in `TriangleError` EXACTLY when some
+source period crosses the end of the `period_origin`-window containing its start (`Spec.C08.expectStraddle`, month
+index arithmetic) — the walk cannot fail for any other reason (the constructor accepts every re-labelled cell, the
+model's fuel never runs out). -/
+theorem straddle_iff_triangleError_month {t : List Cell} {q' : Int} {origin init : Date} {c0 : Cell}
+    (hq : 1 ≤ q') (hv : origin.valid = true) (he : origin.isMonthEnd = true)
+    (hcells : ∀ c ∈ t, c.datesOk = true ∧ c.ps.valid = true) (hmin : ∀ c ∈ t, ¬ c.ps < c0.ps)
+    (hanchor : anchorBefore q' .month origin c0.ps = some init) :
+    assignWindows q' .month init (t.mergeSort fun a b => coordCmp a b != .gt) = .error .triangleError ↔
+      Spec.C08.expectStraddle q' .month origin t = true :=
+  assignWindows_straddle_iff_month hq hv he hcells hmin hanchor
+
+/-- **`straddle_raises_month`: a straddling source period makes `_aggregate_period` raise `TriangleError`.** Under
+the hypotheses of `straddle_iff_triangleError_month` (the anchor walk ends by `anchorBefore_ne_none_month`): if some
+source period crosses the end of its `period_origin`-window, `aggregatePeriod` returns `.error .triangleError`. -/
+theorem straddle_raises_month {tr : Transc} {t : List Cell} {q q' : Int} {s : String} {origin : Date}
+    {prem : Bool} (hst : standardizeResolution q s = .ok (q', .month)) (hq : 1 ≤ q')
+    (hv : origin.valid = true) (he : origin.isMonthEnd = true)
+    (hcells : ∀ c ∈ t, c.datesOk = true ∧ c.ps.valid = true)
+    (hstr : Spec.C08.expectStraddle q' .month origin t = true) :
+    aggregatePeriod tr t (some (q, s)) origin prem = .error .triangleError := by
+  have hperm : (t.mergeSort fun a b => coordCmp a b != .gt).Perm t := List.mergeSort_perm _ _
+  have hs := sorted_by_ps t
+  unfold aggregatePeriod
+  simp only [hst]
+  split
+  · rename_i hnil
+    -- an empty slice has no straddler
+    have : t = [] := by
+      have := hperm.length_eq
+      rw [hnil] at this
+      exact List.eq_nil_of_length_eq_zero this.symm
+    subst this
+    simp [Spec.C08.expectStraddle] at hstr
+  · rename_i c0 tl hsorted
+    have hc0 : c0 ∈ t := hperm.mem_iff.mp (by rw [hsorted]; simp)
+    have hmin : ∀ c ∈ t, ¬ c.ps < c0.ps := by
+      intro c hc
+      rw [hsorted] at hs
+      rcases List.mem_cons.mp (by rw [← hsorted]; exact hperm.mem_iff.mpr hc) with rfl | hc'
+      · exact fun hlt => Date.lt_asymm_agg hlt hlt
+      · exact (List.pairwise_cons.mp hs).1 c hc'
+    split
+    · rename_i hnone; exact absurd hnone (anchorBefore_ne_none_month hq hv he (hcells c0 hc0).2)
+    · rename_i init hinit
+      have := (assignWindows_straddle_iff_month hq hv he hcells hmin hinit).mpr hstr
+      rw [this]
+
 /-- **windows are disjoint** (month units, month-end anchor, positive quantity — the regime of `window_spec`'s
 closed form): an earlier window ends strictly before a later one starts; with `window_consecutive` the windows
 tile the calendar from the anchor on. Window `k` is `[last day of month M + k·q, + 1 day … last day of month
@@ -249,6 +495,100 @@ theorem evalGrid_spec {q : Int} {u : ResUnit} {origin first last : Date} {grid :
       simpa [iterD] using this
     · simpa [iterD] using h2
 
+/-- **`evalGrid_origin_month`: the kept evaluation dates are exactly the points `eval_origin + k·res` between the
+first and the last evaluation date.** Month units, valid month-end `eval_origin`, positive quantity: a date is in
+the grid iff it is the last day of month `monthToId eval_origin + k·q` for some integer `k` and lies in
+`[first, last]`. (With `aggEval_eq_filter`: evaluation aggregation keeps exactly the cells whose evaluation date is
+on the grid of the requested origin.) -/
+theorem evalGrid_origin_month {q : Int} {origin first last : Date} {grid : List Date} (hq : 1 ≤ q)
+    (hv : origin.valid = true) (he : origin.isMonthEnd = true)
+    (h : validEvals q .month origin first last = some grid) (d : Date) :
+    d ∈ grid ↔ (∃ k : Int, d = monthEndOf (monthToId origin + k * q)) ∧ first ≤ d ∧ d ≤ last := by
+  obtain ⟨anchor, hanchor, _, hgrid, hend⟩ := evalGrid_spec h
+  obtain ⟨j, hj, hlt, hnext⟩ := anchor_spec_month hv he hanchor
+  have hvi : anchor.valid = true := by rw [hj]; exact monthEndOf_valid _
+  have hei : anchor.isMonthEnd = true := by rw [hj]; exact monthEndOf_isMonthEnd _
+  have hid : monthToId anchor = monthToId origin + j * q := by rw [hj, monthToId_monthEndOf]
+  have hpt : ∀ i : Nat, iterD q .month i anchor = monthEndOf (monthToId origin + (j + i) * q) := by
+    intro i; rw [iterD_month_monthEnd q i anchor hvi hei, hid]; congr 1; ring
+  -- monotone: a smaller month index is an earlier-or-equal month end
+  have mono : ∀ {M N : Int}, M ≤ N → ¬ (monthEndOf N < monthEndOf M) := by
+    intro M N hMN hlt'
+    rcases monthEndOf_le_or hMN with e | l
+    · rw [e] at hlt'; exact Date.lt_asymm_agg hlt' hlt'
+    · exact Date.lt_asymm_agg l hlt'
+  constructor
+  · intro hd
+    obtain ⟨i, hi, rfl⟩ := List.getElem_of_mem hd
+    obtain ⟨hform, hle⟩ := hgrid i hi
+    rw [hpt] at hform
+    refine ⟨⟨j + (i + 1 : Nat), hform⟩, ?_, hle⟩
+    rw [Date.le_iff_not_lt_agg, hform]
+    intro hlt'
+    have h1 : monthToId origin + (j + 1) * q ≤ monthToId origin + (j + ((i + 1 : Nat) : Int)) * q := by
+      have : (j + 1) * q ≤ (j + ((i + 1 : Nat) : Int)) * q :=
+        Int.mul_le_mul_of_nonneg_right (by push_cast; omega) (by omega)
+      omega
+    rcases monthEndOf_le_or h1 with e | l
+    · rw [← e] at hlt'; exact hnext hlt'
+    · exact hnext (Date.lt_trans_agg l hlt')
+  · rintro ⟨⟨k, rfl⟩, hfirst, hlast⟩
+    rw [Date.le_iff_not_lt_agg] at hfirst hlast
+    -- k > j
+    have hkj : j < k := by
+      by_contra hc
+      have hle : monthToId origin + k * q ≤ monthToId origin + j * q := by
+        have : k * q ≤ j * q := Int.mul_le_mul_of_nonneg_right (by omega) (by omega)
+        omega
+      rw [hj] at hlt
+      rcases monthEndOf_le_or hle with e | l
+      · rw [e] at hfirst; exact hfirst hlt
+      · exact hfirst (Date.lt_trans_agg l hlt)
+    -- k ≤ j + grid.length
+    have hkl : k ≤ j + grid.length := by
+      by_contra hc
+      have hle : monthToId origin + (j + ((grid.length + 1 : Nat) : Int)) * q ≤ monthToId origin + k * q := by
+        have : (j + ((grid.length + 1 : Nat) : Int)) * q ≤ k * q :=
+          Int.mul_le_mul_of_nonneg_right (by push_cast; omega) (by omega)
+        omega
+      apply hend
+      rw [hpt, Date.le_iff_not_lt_agg]
+      intro hl
+      rcases monthEndOf_le_or hle with e | l
+      · rw [e] at hl; exact hlast hl
+      · exact hlast (Date.lt_trans_agg hl l)
+    obtain ⟨i, hi⟩ : ∃ i : Nat, k = j + ((i + 1 : Nat) : Int) := ⟨(k - j - 1).toNat, by push_cast; omega⟩
+    have hil : i < grid.length := by push_cast at hi; omega
+    have := (hgrid i hil).1
+    rw [hpt, ← hi] at this
+    rw [← this]
+    exact List.getElem_mem hil
+
+/-- **bridge `spec_evalOk_month`.** The closed-form predicate `Spec.C08.evalOk` — the output is the input filtered
+by "evaluation date is a month end whose month index differs from `eval_origin`'s by a multiple of `q`", cells
+unchanged and in order — holds on the model's `_aggregate_eval` of a canonical slice (month units, valid month-end
+origin, positive quantity, valid evaluation dates). -/
+theorem spec_evalOk_month {t out : List Cell} {q q' : Int} {s : String} {origin : Date}
+    (hs : t.Pairwise (fun a b => Cell.le a b)) (hk : kindsConsistent t = true)
+    (h : aggregateEval t (some (q, s)) origin = .ok out)
+    (hst : standardizeResolution q s = .ok (q', .month)) (hq : 1 ≤ q') (hv : origin.valid = true)
+    (he : origin.isMonthEnd = true) (hev : ∀ c ∈ t, c.ev.valid = true) :
+    Spec.C08.evalOk q' .month origin t out = true := by
+  obtain ⟨q2, u, first, last, grid, hst', hmin, hmax, hgrid, rfl⟩ := aggEval_eq_filter hs hk h
+  rw [hst] at hst'
+  obtain ⟨rfl, rfl⟩ : q' = q2 ∧ ResUnit.month = u := by
+    injection hst' with h1; injection h1 with h2 h3; exact ⟨h2, h3⟩
+  unfold Spec.C08.evalOk
+  rw [beq_iff_eq]
+  apply List.filter_congr
+  intro c hc
+  have hmem : c.ev ∈ t.map (·.ev) := List.mem_map.mpr ⟨c, hc, rfl⟩
+  have h1 : first ≤ c.ev := (Date.le_iff_not_lt_agg _ _).mpr (minDate_le hmin _ hmem)
+  have h2 : c.ev ≤ last := (Date.le_iff_not_lt_agg _ _).mpr (maxDateAgg_ge hmax _ hmem)
+  rw [Bool.eq_iff_iff, List.contains_iff_mem, evalGrid_origin_month hq hv he hgrid,
+    onGrid_month_iff (hev c hc)]
+  exact ⟨fun h => h.1, fun h => ⟨h, h1, h2⟩⟩
+
 /-! ### 5. incremental in/out -/
 
 /-- **`aggregate_incremental_commutes`.** On an incremental triangle `aggregate` is the incremental form of the
@@ -277,15 +617,115 @@ theorem aggregateSlice_none (tr : Transc) (s : List Cell) (a : AggArgs) (hp : a.
     (he : a.evalRes = none) : aggregateSlice tr a s = .ok s := by
   simp [aggregateSlice, aggregateEval, aggregatePeriod, hp, he]
 
+/-! ### 5b. from one slice to the whole triangle -/
+
+/-- **`aggregate_union_of_slices`.** On a cumulative triangle `aggregate` returns — up to the final re-sorting of
+`Triangle(...)` — exactly the cells of the per-slice results (`_aggregate_eval` then `_aggregate_period` on every
+slice, slices = the cells of one metadata): `sum(agg_slices)` neither drops, merges nor duplicates a cell. -/
+theorem aggregate_union_of_slices {tr : Transc} {t out : List Cell} {a : AggArgs}
+    (h : aggregateCum tr t a = .ok out) :
+    ∃ aggs, smMapE (fun p : Metadata × List Cell => aggregateSlice tr a p.2) (Triangle.slices t) = .ok aggs ∧
+      out.Perm aggs.flatten :=
+  aggregateCum_perm h
+
+/-- whole-triangle version of `spec_windowsOk_month`: `Spec.C08.windowsOk` holds on the output of `aggregate` for
+ALL slices at once -/
+theorem spec_windowsOk_month_all {tr : Transc} {t out : List Cell} {a : AggArgs} {q q' : Int} {s : String}
+    (h : aggregateCum tr t a = .ok out) (hp : a.periodRes = some (q, s))
+    (hst : standardizeResolution q s = .ok (q', .month)) (hv : a.periodOrigin.valid = true)
+    (he : a.periodOrigin.isMonthEnd = true) :
+    Spec.C08.windowsOk q' .month a.periodOrigin out = true :=
+  windowsOk_month_cum h hp hst hv he
+
+/-- **`aggregate_conserves`: conservation for the whole triangle, per slice and evaluation date.** For a
+cumulative triangle aggregated to a period resolution (no evaluation resolution), every summed field's total over
+the output cells of metadata `m` and evaluation date `e` equals its total over the source cells of that metadata
+and evaluation date, sample by sample — for EVERY slice `m` at once (`aggPeriod_conserves` lifted through
+`sum(agg_slices)`). -/
+theorem aggregate_conserves {tr : Transc} {t out : List Cell} {a : AggArgs} {q : Int} {s : String}
+    {f : String} {i : Nat} (h : aggregateCum tr t a = .ok out) (hev : a.evalRes = none)
+    (hp : a.periodRes = some (q, s))
+    (hr : ruleOf [] (lowerKey f) = some ⟨.sum, [f]⟩) (hc : a.prem = true ∨ f ∉ nonLossMetrics)
+    (hin : ∀ c ∈ t, (c.getV f).inRange i = true) (m : Metadata) (e : Date) :
+    ((out.filter fun o => o.md == m && o.ev == e).map fun o => (o.getV f).at i).sum =
+      ((t.filter fun c => c.md == m && c.ev == e).map fun c => (c.getV f).at i).sum := by
+  obtain ⟨aggs, haggs, hperm⟩ := aggregateCum_perm h
+  let G : Cell → Rat := fun x => if (x.md == m && x.ev == e) then (x.getV f).at i else 0
+  rw [sum_filter_eq_indicator, sum_filter_eq_indicator]
+  show (out.map G).sum = (t.map G).sum
+  rw [sum_perm (hperm.map G), sum_flatten_agg]
+  -- slice by slice
+  have hslice : ∀ p ∈ Triangle.slices t, ∀ r, aggregateSlice tr a p.2 = .ok r →
+      (r.map G).sum = ((t.filter fun c => c.md == p.1).map G).sum := by
+    intro p hp' r hr'
+    unfold Triangle.slices at hp'
+    obtain ⟨m', _, rfl⟩ := List.mem_map.mp hp'
+    simp only at hr' ⊢
+    have hsp : ((t.filter (·.md == m')).mergeSort Cell.le).Perm (t.filter (·.md == m')) :=
+      List.mergeSort_perm _ _
+    obtain ⟨ev', hev', hper⟩ := aggregateSlice_period hr'
+    rw [hev] at hev'
+    simp only [aggregateEval] at hev'
+    cases hev'
+    rw [hp] at hper
+    have hmdsl : ∀ c ∈ (t.filter (·.md == m')).mergeSort Cell.le, c.md = m' := by
+      intro c hc'
+      have := (List.mem_filter.mp (hsp.mem_iff.mp hc')).2
+      simpa using this
+    have hmdout : ∀ o ∈ r, o.md = m' := by
+      intro o ho
+      obtain ⟨c, hc', hmd⟩ := aggregatePeriod_out_md hper ho
+      rw [hmd]; exact hmdsl c hc'
+    rw [← sum_perm (hsp.map G)]
+    by_cases hmm : m' = m
+    · subst hmm
+      have hGo : ∀ o ∈ r, G o = if o.ev == e then (o.getV f).at i else 0 := by
+        intro o ho; simp [G, hmdout o ho]
+      have hGc : ∀ c ∈ (t.filter (·.md == m')).mergeSort Cell.le,
+          G c = if c.ev == e then (c.getV f).at i else 0 := by
+        intro c hc'; simp [G, hmdsl c hc']
+      rw [List.map_congr_left hGo, List.map_congr_left hGc, ← sum_filter_eq_indicator,
+        ← sum_filter_eq_indicator]
+      exact aggPeriod_conserves hper hr hc
+        (fun c hc' => hin c (List.mem_filter.mp (hsp.mem_iff.mp hc')).1) e
+    · have h1 : ∀ o ∈ r, G o = 0 := by
+        intro o ho
+        have : (o.md == m) = false := by rw [hmdout o ho]; simpa using hmm
+        simp only [G, this, Bool.false_and, Bool.false_eq_true, if_false]
+      have h2 : ∀ c ∈ (t.filter (·.md == m')).mergeSort Cell.le, G c = 0 := by
+        intro c hc'
+        have : (c.md == m) = false := by rw [hmdsl c hc']; simpa using hmm
+        simp only [G, this, Bool.false_and, Bool.false_eq_true, if_false]
+      rw [sum_map_zero _ _ h1, sum_map_zero _ _ h2]
+  rw [smMapE_sum (fun r => (r.map G).sum) (fun p => ((t.filter fun c => c.md == p.1).map G).sum) haggs
+    (fun p hp' r hr' => hslice p hp' r hr')]
+  unfold Triangle.slices
+  rw [List.map_map]
+  exact sum_groups (fun c : Cell => c.md) G (metasOf t) t (metasOf_nodup_agg t)
+    (fun c hc' => metasOf_mem_agg hc')
+
 /-! ### 6. non-vacuity: three quarters into half-years -/
 
-def exQ : List Cell :=
-  [ { kind := .cumulative, ps := ⟨2020, 1, 1⟩, pe := ⟨2020, 3, 31⟩, ev := ⟨2020, 12, 31⟩,
-      values := [("paid_loss", .int 10)] },
-    { kind := .cumulative, ps := ⟨2020, 4, 1⟩, pe := ⟨2020, 6, 30⟩, ev := ⟨2020, 12, 31⟩,
-      values := [("paid_loss", .int 5)] },
-    { kind := .cumulative, ps := ⟨2020, 7, 1⟩, pe := ⟨2020, 9, 30⟩, ev := ⟨2020, 12, 31⟩,
-      values := [("paid_loss", .int 2)] } ]
+abbrev exQ : List Cell := aggExQ
+
+/-- **`aggregatePeriod` succeeds** on the three quarters (half-year windows, default origin): the first two
+quarters are summed into 2020-01-01 … 2020-06-30 (10 + 5), the third stands alone in the second half-year -/
+example : aggregatePeriod Transc.id exQ (some (6, "month")) ⟨1999, 12, 31⟩ true = .ok aggExOut :=
+  aggExQ_aggregates
+
+/-- the rule hypothesis of `aggPeriod_cell_spec` / `aggPeriod_conserves` holds for `paid_loss` in the regenerated
+table … -/
+example : ruleOf [] (lowerKey "paid_loss") = some ⟨.sum, ["paid_loss"]⟩ := by decide +kernel
+
+/-- … so every hypothesis of `aggPeriod_conserves` has a kernel-checked inhabitant -/
+example :
+    ((aggExOut.filter fun o => o.ev == ⟨2020, 12, 31⟩).map fun o => (o.getV "paid_loss").at 0).sum =
+      ((exQ.filter fun c => c.ev == ⟨2020, 12, 31⟩).map fun c => (c.getV "paid_loss").at 0).sum :=
+  aggPeriod_conserves (f := "paid_loss") (i := 0) aggExQ_aggregates (by decide +kernel) (Or.inl rfl)
+    (by decide +kernel) ⟨2020, 12, 31⟩
+
+/-- **`aggregateEval` succeeds**: yearly evaluation grid from the default origin keeps the year-end diagonal -/
+example : aggregateEval exQ (some (1, "year")) ⟨1999, 12, 31⟩ = .ok exQ := aggExQ_evalAgg
 
 /-- the anchor walk from the default origin reaches the month end before the data (40 half-year steps) -/
 example : anchorBefore 6 .month ⟨1999, 12, 31⟩ ⟨2020, 1, 1⟩ = some ⟨2019, 12, 31⟩ := by decide +kernel
